@@ -1204,7 +1204,9 @@ impl SubRule {
                 ParseElement::Structure(items, stress, tone, var) => {
                     let insert_syll = self.gen_syll_from_struct(items, stress, tone, var, state.position, true)?;
 
-                    if pos.at_syll_start() {
+                    if pos.at_syll_start() || pos.syll_index >= res_word.syllables.len() {
+                        // (a cursor past the last syllable means the end of the word)
+                        pos.syll_index = pos.syll_index.min(res_word.syllables.len());
                         res_word.syllables.insert(pos.syll_index, insert_syll);
                         pos.syll_index += 1;
                         pos.seg_index = 0;
@@ -1849,7 +1851,10 @@ impl SubRule {
                         } else {
                             res_word.syllables.last_mut().unwrap().segments.push_back(*seg);
                             if let Some(m) = mods {
-                                let lc = res_word.apply_seg_mods(&self.alphas, m, pos, z.position)?;
+                                // `pos` is past the end of the word, the segment went to the end of the last syllable
+                                let last_syll = res_word.syllables.len() - 1;
+                                let seg_pos = SegPos::new(last_syll, res_word.syllables[last_syll].segments.len() - 1);
+                                let lc = res_word.apply_seg_mods(&self.alphas, m, seg_pos, z.position)?;
                                 if lc > 0 {
                                     pos.seg_index += lc.unsigned_abs() as usize;
                                 }
